@@ -18,12 +18,13 @@ def errStr : Err → String
   | .channelNotFound => "err:core" | .activeNotFound => "err:active-not-found"
   | .invalidTimeout => "err:invalid-timeout" | .accountExists => "err:account-exists"
   | .invalidReopening => "err:invalid-reopening" | .invalidRequest => "err:invalid-request"
+  | .invalidType => "err:core"
   | .coreState => "err:core"
 
 def initWorld : World :=
   { ctrl := ⟨[], [], [], 0, true⟩, host := ⟨[], [], [], 0, true⟩,
     peer := [("cconn", "hconn")],
-    validAddr := fun a => a.length > 5 && a.all (fun c => c.isAlphanum),
+    validAddr := fun a => a.all (fun c => c != '!' && c != ' '),
     genAddr := fun h p => "A(" ++ h ++ "," ++ p ++ ")",
     taken := [] }
 
@@ -32,13 +33,17 @@ def sortStrs (l : List String) : List String := l.mergeSort (fun a b => decide (
 def stateStr : ChState → String
   | .init => "init" | .tryopen => "tryopen" | .opened => "open" | .closed => "closed"
 
+/-- "c12" / "h3" → 12 / 3 (anything else: a channel that does not exist) -/
+def chanNo (s : String) : Nat := ((s.drop 1).toString.toNat?).getD 1000000
+
 def fmtSide (ctrl : Bool) (s : Side) : Json :=
-  let chans := s.chans.mergeSort (fun a b => decide (a.1 ≤ b.1))
+  let nm (own : Bool) (n : Nat) : String := (if own == ctrl then "c" else "h") ++ toString n
+  let chans := (s.chans.map fun (id, c) => (nm true id, c)).mergeSort (fun a b => decide (a.1 ≤ b.1))
   Json.mkObj [
     ("chans", Json.arr (chans.map fun (id, c) => Json.mkObj [
         ("id", id), ("port", if ctrl then c.port else c.cpPort), ("state", stateStr c.state), ("order", match c.order with | .ordered => "ordered" | .unordered => "unordered"),
-        ("cp", c.cpChan), ("address", match c.md with | some m => m.address | none => "")]).toArray),
-    ("active", Json.arr ((sortStrs (s.active.map fun (k, id) => k.1 ++ "|" ++ k.2 ++ "|" ++ id)).map Json.str).toArray),
+        ("cp", match c.cpChan with | some n => nm false n | none => ""), ("address", match c.md with | some m => m.address | none => "")]).toArray),
+    ("active", Json.arr ((sortStrs (s.active.map fun (k, id) => k.1 ++ "|" ++ k.2 ++ "|" ++ nm true id)).map Json.str).toArray),
     ("addr", Json.arr ((sortStrs (s.addr.map fun (k, a) => k.1 ++ "|" ++ k.2 ++ "|" ++ a)).map Json.str).toArray)]
 
 def fmtWorld (w : World) : Json := Json.mkObj [("ctrl", fmtSide true w.ctrl), ("host", fmtSide false w.host)]
@@ -65,21 +70,21 @@ def handleWorld (w : World) (f : String) (j : Json) : Except String (World × Js
   | "reset" => pure (answer initWorld none)
   | "register" =>
     let (w', r) := register w (← str j "owner") (← str j "conn") (← getVersion j) (← getOrder j)
-    pure (answer w' (exc r) (match r with | .ok id => [("chan", Json.str id)] | _ => []))
+    pure (answer w' (exc r) (match r with | .ok id => [("chan", Json.str ("c" ++ toString id))] | _ => []))
   | "init" =>
     let port := match j.getObjValAs? String "port" with
       | .ok p => if p == "" then ctrlPrefix ++ ((j.getObjValAs? String "owner").toOption.getD "") else p
       | .error _ => ctrlPrefix ++ ((j.getObjValAs? String "owner").toOption.getD "")
     let cp := (j.getObjValAs? String "cpPort").toOption.getD hostPort
     let (w', r) := ctrlInit w (← getOrder j) (← str j "conn") port cp (← getVersion j)
-    pure (answer w' (exc r) (match r with | .ok id => [("chan", Json.str id)] | _ => []))
+    pure (answer w' (exc r) (match r with | .ok id => [("chan", Json.str ("c" ++ toString id))] | _ => []))
   | "hostTry" =>
-    let (w', r) := hostTry w (← str j "cid")
-    pure (answer w' (exc r) (match r with | .ok id => [("chan", Json.str id)] | _ => []))
-  | "ctrlAck" => let (w', r) := ctrlAck w (← str j "cid") (← str j "hid"); pure (answer w' (exc r))
-  | "hostConfirm" => let (w', r) := hostConfirm w (← str j "hid"); pure (answer w' (exc r))
-  | "timeoutClose" => let (w', r) := ctrlTimeoutClose w (← str j "cid"); pure (answer w' (exc r))
-  | "hostCloseConfirm" => let (w', r) := hostCloseConfirm w (← str j "hid"); pure (answer w' (exc r))
+    let (w', r) := hostTry w (chanNo (← str j "cid"))
+    pure (answer w' (exc r) (match r with | .ok id => [("chan", Json.str ("h" ++ toString id))] | _ => []))
+  | "ctrlAck" => let (w', r) := ctrlAck w (chanNo (← str j "cid")) (chanNo (← str j "hid")); pure (answer w' (exc r))
+  | "hostConfirm" => let (w', r) := hostConfirm w (chanNo (← str j "hid")); pure (answer w' (exc r))
+  | "timeoutClose" => let (w', r) := ctrlTimeoutClose w (chanNo (← str j "cid")); pure (answer w' (exc r))
+  | "hostCloseConfirm" => let (w', r) := hostCloseConfirm w (chanNo (← str j "hid")); pure (answer w' (exc r))
   | "hostInit" => pure (answer w (some .invalidChannelFlow))
   | "ctrlTry" => pure (answer w (some .invalidChannelFlow))
   | "closeInit" => pure (answer w (some .invalidRequest))
@@ -89,7 +94,7 @@ def handleWorld (w : World) (f : String) (j : Json) : Except String (World × Js
   | "sendTx" =>
     let owner ← str j "owner"
     match sendTx w owner owner (← str j "conn") (← bool j "timeoutOk") (← bool j "dataOk") with
-    | .ok (port, cid) => pure (answer w none [("port", Json.str port), ("chan", Json.str cid)])
+    | .ok (port, cid) => pure (answer w none [("port", Json.str port), ("chan", Json.str ("c" ++ toString cid))])
     | .error e => pure (answer w (some e))
   | _ => throw s!"unknown op {f}"
 
